@@ -19,8 +19,8 @@ TF(name, lname, w1, w2) == [name |-> name, lname |-> lname, value |-> w1 \o "\r\
 HostField == F("host", "canon", <<"example.com">>)
 
 HeaderSets == <<
-   \* plain
-   <<HostField, F("x-a", "canon", <<"v1">>)>>,
+   \* plain, with the specially stored Cookie and User-Agent (one-byte value)
+   <<HostField, F("x-a", "canon", <<"v1">>), F("cookie", "canon", <<"a=1;", "b=2">>), F("user-agent", "canon", <<"u">>)>>,
    \* mixed case, repeated fields, no space after colon, padded
    <<F("host", "lower", <<"example.com">>), F("x-a", "mixed", <<"v1">>), F("x-bb", "upper", <<"b1">>),
      F("x-a", "nospace", <<"v2">>), F("x-bb", "padded", <<"b2", "b3">>), F("content-type", "mixed", <<"text/plain">>)>>,
@@ -29,7 +29,7 @@ HeaderSets == <<
      F("x-content-length", "canon", <<"99">>), F("transfer-encodings", "canon", <<"chunked">>),
      F("x-bb", "foldtab", <<"t1", "t2", "t3">>)>>,
    \* more decoys, different spellings
-   <<F("host", "upper", <<"example.com">>), F("content_length", "lower", <<"5">>), F("content-lengt", "upper", <<"7">>),
+   <<F("host", "upper", <<"h">>), F("cookie", "mixed", <<"k=v">>), F("content_length", "lower", <<"5">>), F("content-lengt", "upper", <<"7">>),
      F("x-transfer-encoding", "mixed", <<"chunked">>), F("x-a", "lower", <<"v1">>)>>
 >>
 
